@@ -462,7 +462,7 @@ theorem BC.get_len (capK maxDepth : Nat) (nk : K → Nat) (nc : Nat) (sc : SC K 
   unfold BC.get
   cases alookup bc.cache k with
   | some e => exact ⟨rfl, h.mono (fun _ => Nat.le_add_right _ _) (Nat.le_refl _)⟩
-  | none => exact SC.get_len capK maxDepth nk nc sc k bc.prev hroom h
+  | none => exact SC.get_len capK maxDepth nk nc sc k bc.base hroom h
 
 theorem Sys.step_len (capK maxDepth : Nat) (nk : K → Nat) (nc : Nat) (s : Sys H K B V) (op : Op H K B V)
     (hroomK : ∀ k, nk k + (if op.touches k = true then 1 else 0) ≤ capK)
